@@ -382,24 +382,48 @@ impl FlowGen {
             lo += 1;
             hi += 1;
         }
-        if self.rng.chance(1, 4) || (shadowed.is_some() && self.rng.chance(1, 2)) {
-            self.feat("lambda-default");
-            let p = self.fresh("a");
+        let shape = if shadowed.is_some() && self.rng.chance(1, 2) { 0 } else { self.rng.below(12) };
+        // 0..2 default, 3..5 splat, 6 default then splat, 7 splat then default, else neither
+        let mut default_param = |me: &mut Self, c: &mut Ctx, params: &mut Vec<Lv>| {
+            me.feat("lambda-default");
+            let p = me.fresh("a");
             // defaults are evaluated before any parameter is bound: they only see outer names, also
             // when a parameter has the same name
             let dflt = match &shadowed {
-                Some(nm) if self.rng.chance(2, 3) => bin(var(nm), "+", int(100)),
-                _ => self.int_expr(ctx, 1),
+                Some(nm) if me.rng.chance(2, 3) => bin(var(nm), "+", int(100)),
+                _ => me.int_expr(ctx, 1),
             };
             params.push(Lv::Default(Box::new(lv(&p)), Box::new(dflt)));
             c.ints.push(p);
-            hi += 1;
-        } else if self.rng.chance(1, 4) {
-            self.feat("lambda-splat");
-            let p = self.fresh("r");
+        };
+        let splat_param = |me: &mut Self, c: &mut Ctx, params: &mut Vec<Lv>| {
+            me.feat("lambda-splat");
+            let p = me.fresh("r");
             params.push(Lv::Splat(Box::new(lv(&p))));
             c.lists.push(p);
-            hi = usize::MAX;
+        };
+        match shape {
+            0..=2 => {
+                default_param(self, &mut c, &mut params);
+                hi += 1;
+            }
+            3..=5 => {
+                splat_param(self, &mut c, &mut params);
+                hi = usize::MAX;
+            }
+            6 => {
+                self.feat("lambda-default-then-splat");
+                default_param(self, &mut c, &mut params);
+                splat_param(self, &mut c, &mut params);
+                hi = usize::MAX;
+            }
+            7 => {
+                self.feat("lambda-splat-then-default");
+                splat_param(self, &mut c, &mut params);
+                default_param(self, &mut c, &mut params);
+                hi = usize::MAX;
+            }
+            _ => {}
         }
         let body = if self.rng.chance(1, 2) {
             self.int_expr(&c, d.saturating_sub(1))
